@@ -46,6 +46,9 @@ fn run_suite<S: ShortGroupSignatureScheme>(em: &mut Emitter, base: &mut Rng, sui
         if let Some((line, got)) = create_proofs_line(&scn.credentials, &scn.schema, Some(&p)) {
             em.op(line, got);
         }
+        if let Some((line, got)) = markers_line(&scn.credentials, &scn.schema, &scn.nonce, &p) {
+            em.op(line, got);
+        }
         em.op(plan_line(&scn.schema, &p, suite), plan_class(&p, &scn.schema, &scn.nonce).0);
         // the same statements listed in other orders (reversed: predicates before signatures, range before its
         // commitment; rotated): the order of a schema's statement list carries no meaning
@@ -73,6 +76,9 @@ fn run_suite<S: ShortGroupSignatureScheme>(em: &mut Emitter, base: &mut Rng, sui
                     }
                     em.op(plan_line(&sch, &q, suite), plan_class(&q, &sch, &scn.nonce).0);
                     if let Some((line, got)) = create_proofs_line(&scn.credentials, &sch, Some(&q)) {
+                        em.op(line, got);
+                    }
+                    if let Some((line, got)) = markers_line(&scn.credentials, &sch, &scn.nonce, &q) {
                         em.op(line, got);
                     }
                 }
